@@ -240,16 +240,43 @@ type verifConn struct {
 	state   connectivity.State
 	changed chan struct{}
 	waits   map[connectivity.State]int // WaitForStateChange calls per source state
+	// a reconnect faster than the watcher: "after" = Ready again right after the watcher has read TransientFailure
+	// (before its next WaitForStateChange); "before" = Ready again before the watcher even reads the state
+	fast string
 }
 
 func newVerifConn() *verifConn {
 	return &verifConn{state: connectivity.Ready, changed: make(chan struct{}), waits: map[connectivity.State]int{}}
 }
 
+func (c *verifConn) flipLocked(s connectivity.State) {
+	c.state = s
+	close(c.changed)
+	c.changed = make(chan struct{})
+}
+
 func (c *verifConn) GetState() connectivity.State {
 	c.mu.Lock()
 	defer c.mu.Unlock()
-	return c.state
+	if c.fast == "before" && c.state == connectivity.TransientFailure {
+		c.fast = ""
+		c.flipLocked(connectivity.Ready)
+	}
+	s := c.state
+	if c.fast == "after" && s == connectivity.TransientFailure {
+		c.fast = ""
+		c.flipLocked(connectivity.Connecting) // two changes before the watcher waits again
+		c.flipLocked(connectivity.Ready)
+	}
+	return s
+}
+
+// blink: the connection fails and is Ready again before the watcher's next wait
+func (c *verifConn) blink(mode string) {
+	c.mu.Lock()
+	c.fast = mode
+	c.flipLocked(connectivity.TransientFailure)
+	c.mu.Unlock()
 }
 
 func (c *verifConn) WaitForStateChange(ctx context.Context, src connectivity.State) bool {
@@ -328,6 +355,7 @@ type verifEvent struct {
 	P     int         `json:"p"`     // sub: index of the prefix subscribed
 	Mode  string      `json:"mode"`  // cancel: "close" (the watch channel is closed) | "canceled" (a cancel response)
 	Hold  bool        `json:"hold"`  // cancel: the replacement stream is only created at the next cancel_end event
+	Fast  string      `json:"fast"`  // reload: "after" | "before": the connection is Ready again before the state watcher's next wait
 	Fail  string      `json:"fail"`  // sub/reload: "hang" | "err": the snapshot Gets fail until the next fail_off event;
 	N     int         `json:"n"`     //   the event returns after N failed attempts, the operation stays pending
 	Items []verifItem `json:"items"` // batch: changes arriving in ONE watch response, in this order
@@ -569,6 +597,11 @@ func TestVerifDriver(t *testing.T) {
 				etcd.failing = ev.Fail
 				f0 := etcd.failed
 				etcd.mu.Unlock()
+				if ev.Fast != "" {
+					conn.blink(ev.Fast)
+					stuck = finishReload(opened0)
+					break
+				}
 				w0 := conn.nWaits(connectivity.TransientFailure)
 				r0 := conn.nWaits(connectivity.Ready)
 				conn.set(connectivity.TransientFailure)
